@@ -115,17 +115,21 @@ static void run_history(int model, long mp, bool nosym, const std::vector<Op>& o
                 for (auto& kv : Chi->ElementsMap) use(kv.second(0, 1, 0));
                 cnt.tpgf++;
             }
-            else if (k == "V") { // vertex from the container's first element, with storage of N Matsubaras
-                if (!Chi || !gAll) { cnt.skipped++; continue; }
-                for (auto& kv : Chi->NonTrivialElements) {
-                    const IndexCombination4& q = kv.first;
-                    Vertex4 V(*kv.second, (*G)(q.Index1, q.Index3), (*G)(q.Index2, q.Index4), (*G)(q.Index1, q.Index4), (*G)(q.Index2, q.Index3));
-                    long N = std::max(0, atoi(arg(0).c_str())) % 6;
-                    V.compute(N);
-                    for (long n1 = -N - 1; n1 <= N; n1++) for (long n2 = -1; n2 <= 1; n2++) { use(V(n1, n2, n1)); use(V.value(n1, n2, n2)); }
-                    cnt.vertex++;
-                    break;
-                }
+            else if (k == "V") { // vertex of one component with storage of N Matsubaras, evaluated across the whole storage window and beyond
+                if (!rhoComp || !opsComp) { cnt.skipped++; continue; }
+                std::string qs = arg(0); while (qs.size() < 4) qs += '0';
+                IndexCombination4 q(dig(qs, 0, nm), dig(qs, 1, nm), dig(qs, 2, nm), dig(qs, 3, nm));
+                TwoParticleGF chi(*s0.S, *s0.H, Ops->getAnnihilationOperator(q.Index1), Ops->getAnnihilationOperator(q.Index2), Ops->getCreationOperator(q.Index3), Ops->getCreationOperator(q.Index4), *rho);
+                chi.prepare(); chi.compute(false, std::vector<models::FreqTuple>(), comm);
+                auto mk = [&](int i, int j) { std::unique_ptr<GreensFunction> g(new GreensFunction(*s0.S, *s0.H, Ops->getAnnihilationOperator(i), Ops->getCreationOperator(j), *rho)); g->prepare(); g->compute(); return g; };
+                std::unique_ptr<GreensFunction> g13 = mk(q.Index1, q.Index3), g24 = mk(q.Index2, q.Index4), g14 = mk(q.Index1, q.Index4), g23 = mk(q.Index2, q.Index3);
+                Vertex4 V(chi, *g13, *g24, *g14, *g23);
+                long N = std::max(0, atoi(arg(1).c_str())) % 4;
+                V.compute(N);
+                long lo = -2 * N - 2, hi = 2 * N + 1;
+                for (long n1 = lo; n1 <= hi; n1++) for (long n2 = lo; n2 <= hi; n2++) for (long n3 = lo; n3 <= hi; n3++) use(V(n1, n2, n3));
+                use(V.value(0, 1, 0));
+                cnt.vertex++;
             }
             else if (k == "S") { // susceptibility <A;B> of two quadratic operators (S_z-changing ones included)
                 if (!rhoComp) { cnt.skipped++; continue; }
@@ -178,7 +182,7 @@ static std::string gen_ops(hc::Rng& r, int nm) {
         else if (x < 32) ops.push_back("GA");
         else if (x < 50) ops.push_back("X:" + q4() + ":" + (r.pct(20) ? "c" : "k") + ":" + fr());
         else if (x < 64) { std::string qs = q4(); int m = r.range(0, 2); for (int j = 0; j < m; j++) qs += "," + q4(); ops.push_back("K:" + qs + ":" + (r.pct(60) ? "s" : "n") + ":" + fr()); }
-        else if (x < 72) { ops.push_back("GA"); ops.push_back("V:" + std::to_string(r.range(0, 5))); }
+        else if (x < 72) ops.push_back("V:" + q4() + ":" + std::to_string(r.range(0, 3)));
         else if (x < 88) ops.push_back("S:" + q2() + q2() + ":" + (r.pct(50) ? "d" : "k"));
         else if (x < 94) ops.push_back("A:" + q2());
         else if (x < 97) ops.push_back("T:" + std::to_string(r.range(1, 8)));
@@ -194,7 +198,7 @@ static hc::Outcome run_one(hc::RunSpec& rs) {
     int P; { int x = r.below(100); P = x < 40 ? 1 : x < 70 ? 2 : x < 88 ? 3 : 4; }
     c.def("P", P); P = std::max(1, std::min(8, (int)c.i("P"))); c.set("P", P);
     bool big = c.i("big", 0) != 0;
-    int model; { int x = r.below(100); model = x < 22 ? models::ATOM : x < 55 ? models::DIMER : x < 70 ? models::KANAMORI : x < 80 ? models::ATOM_FIELD : x < 95 ? models::DIMER_FIELD : (big ? models::CHAIN3 : models::KANAMORI); }
+    int model; { int x = r.below(100); model = x < 22 ? models::ATOM : x < 55 ? models::DIMER : x < 70 ? models::KANAMORI : x < 78 ? models::ATOM_FIELD : x < 87 ? models::DIMER_FIELD : x < 96 ? models::ATOMS2 : (big ? models::CHAIN3 : models::KANAMORI); }
     c.def("model", model); model = (int)c.i("model") % models::N_MODELS; if (model < 0) model = 0; c.set("model", model);
     c.def("mp", r.pct(15) ? 0 : r.range(1, 100000));
     c.def("nosym", r.pct(40));   // one block: off-diagonal components whose sparse matrices have different sparsity patterns
